@@ -9,7 +9,7 @@ EXPLANATION = (
     "on the tail before re-queuing; (R2) per-stream queues are FIFO: every Deque::push_front on a stream's send or "
     "receive queue is a put-back of the element just popped from the same queue (or the reclaimed in-flight frame); "
     "(R3) an event popped from the receive queue is returned, put back, or is the documented skip, never silently "
-    "dropped; (R4) receive events are appended only from the connection task's frame handlers (arrival order, one lock). "
+    "dropped; (R4) receive events are appended only from the connection task's frame handlers (arrival order, one lock); (R5) the codec accepts no new frame while a CONTINUATION / DATA remainder is staged, so header blocks stay contiguous and a staged remainder is never overwritten; (R6 = C06.R3) every event appended to a stream's receive queue is followed by a wake of the receiving task. "
     "Byte-exact, exactly-once delivery for every fragmentation is NOT decided."
 )
 NOT_DECIDED = ("that bytes are unmodified and delivered exactly once for every split into frames, reads, writes and window grants "
@@ -204,7 +204,47 @@ def r4_arrival_order(ctx):
         r.check(ok, 'pusher|' + p, F.fns[p].file, '%s is reachable from DynStreams::recv_* only%s' % (core.short(p), '' if not from_handles else '; ALSO from handle-side %s (events could be appended out of arrival order)' % from_handles[:3]))
 
 
+def r5_block_contiguity(ctx, rid='C01.R5'):
+    r = ctx.rule(rid, 'GUARD', 'a header block is contiguous on the wire and no staged frame is overwritten: the codec accepts no frame while Encoder.next is occupied')
+    F = ctx.facts
+    ENC = 'codec::framed_write::Encoder'
+    hc = r.fn(ENC + '::has_capacity')
+    if hc:
+        def oracle(sw):
+            if sw.kind == 'variant' and strip(sw.subject)[0] == 'field' and core.last_field(strip(sw.subject)) == (ENC, 'next'):
+                return lambda l: isinstance(l, frozenset) and 'Some' in l
+            return None
+        try:
+            exits, parent, nforced = core.assume_scan(F, hc, oracle)
+            r.check(nforced >= 1, 'has_capacity|tests-next', hc.file, 'Encoder::has_capacity tests Encoder.next')
+            for (bi, rc, st) in exits:
+                ok = rc in ('const:false', 'const:0')
+                r.check(ok, 'has_capacity|occupied|%s' % rc, hc.loc(bi),
+                        'with Encoder.next occupied (pending CONTINUATION or DATA payload) has_capacity returns %s%s' % (
+                            'false' if ok else rc, '' if ok else ' — another frame can be encoded between HEADERS and its CONTINUATION, or overwrite the staged remainder'),
+                        witness=core.compress_path(hc, [x['bb'] for x in core.witness_path(hc, parent, bi, st)]))
+            r.check(bool(exits), 'has_capacity|exits', hc.file, '%d exit(s) explored' % len(exits))
+        except core.Cap as e:
+            r.bad('has_capacity|cap', hc.file, str(e))
+    # every producer goes through Encoder::buffer, which asserts has_capacity first; Encoder.next is written only there and in unset_frame
+    writers = set()
+    for name, f in F.fns.items():
+        for bi, si, pl, rv, ln in f.stmts():
+            if core.write_target(f, pl) == (ENC, 'next'):
+                writers.add(name.split('::{closure')[0])
+    allowed = {ENC + '::buffer', ENC + '::unset_frame', 'codec::framed_write::FramedWrite::new'}
+    r.check(writers <= allowed and (ENC + '::buffer') in writers, 'next|writers', '', 'Encoder.next is written by %s' % sorted(writers))
+    b = F.fn(ENC + '::buffer')
+    if b:
+        asserts = [bi for bi, t in b.calls_to(ENC + '::has_capacity')]
+        ws = [bi for bi, si, pl, rv, ln in b.stmts() if core.write_target(b, pl) == (ENC, 'next')]
+        r.check(bool(asserts) and bool(ws) and all(b.dominated_by_blocks(w, asserts) for w in ws), 'buffer|asserts-first', b.file, 'Encoder::buffer stages a frame only after has_capacity()')
+
+
 def run(ctx):
+    r5_block_contiguity(ctx)
+    from . import C06
+    C06.r3_notify(ctx, 'C01.R6')  # a delivered event (incl. interim 1xx heads) wakes the task waiting for it
     r1_end_stream_handover(ctx)
     r2_fifo(ctx)
     r3_popped_delivered(ctx)
